@@ -8,6 +8,7 @@
 (*   {op:"rule", rule, bound, a, ok}   Validate of a against {min|max|exclusive..: bound}    *)
 (*   {op:"prec", p, a, ok}             Validate against {precision: p}                       *)
 (*   {op:"int",  a, ok}                Validate against type integer                          *)
+(*   {op:"eq",   form, x, a, ok}       Validate of a against  x // {const: true}  or  x // {enum: [x, 7777]}  *)
 EXTENDS Integers, Sequences, TLC, Json
 CONSTANT TraceFile
 R == INSTANCE Num
@@ -23,8 +24,11 @@ Want(e) ==
                            [] e.rule = "exclusiveMinimum" -> c > 0 [] e.rule = "exclusiveMaximum" -> c < 0)
     [] e.op = "prec" -> R!FracLen(R!NF(e.a)) <= e.p
     [] e.op = "int"  -> R!IntClass(e.a)
+    [] e.op = "eq"   -> IF R!NF(e.x) # R!NF(e.a) THEN "no"                     \* const / enum: equality is equality of values ...
+                        ELSE IF R!IntClass(e.x) = R!IntClass(e.a) /\ R!IntClass(e.x) # "unspec" THEN "yes" ELSE "unspec"   \* ... of one kind
 Got(e) == CASE e.op = "cmp" -> e.got [] e.op = "link" -> e.rel [] e.op = "frac" -> e.got
             [] e.op = "int" -> (IF R!IntClass(e.a) = "unspec" THEN "unspec" ELSE IF e.ok THEN "yes" ELSE "no")
+            [] e.op = "eq" -> (IF Want(e) = "unspec" THEN "unspec" ELSE IF e.ok THEN "yes" ELSE "no")
             [] OTHER -> e.ok
 Next == /\ l <= Len(Trace)
         /\ LET e == Trace[l] IN
